@@ -81,8 +81,8 @@ func hasDeferredRecover(f *Fn) (*ast.FuncLit, bool) {
 
 // panicExceptions: sites the discharge rules cannot handle although reading shows they are safe.
 var panicExceptions = map[string]string{
-	"catalog.astNodeToJsightContent | panic": "strconv.ParseBool of the value of an `optional` rule: jsight-schema-core only accepts the literals true/false for this rule when it compiles the schema (GetAST succeeded), so the error branch is dead",
-	"core.adoptError | panic":                "reached only if an error that is not a *jerr.JApiError flows in; every caller passes the result of an Each/closure over handlers that return *jerr.JApiError or nil (checked by the closure-result discharge of the same rule at the call sites is not possible through errors.As, kept as a reasoned exception)",
+	"catalog.astNodeToJsightContent | panic":  "strconv.ParseBool of the value of an `optional` rule: jsight-schema-core only accepts the literals true/false for this rule when it compiles the schema (GetAST succeeded), so the error branch is dead",
+	"core.adoptError | panic":                 "reached only if an error that is not a *jerr.JApiError flows in; every caller passes the result of an Each/closure over handlers that return *jerr.JApiError or nil (checked by the closure-result discharge of the same rule at the call sites is not possible through errors.As, kept as a reasoned exception)",
 	"catalog.(ObjectBuilder).AddType | panic": "jschema.FromRSchema fails only if the regex schema does not compile; regex user types were Check()ed by compileUserTypes before any path variable is built (phase order verified by C01-RECURSION dependency pre-pass)",
 }
 
@@ -1276,8 +1276,8 @@ func (c *Ctx) ruleEmbeddedNil(rule string, reach map[*ssa.Function]bool) {
 // getValueExceptions: key-domain arguments that are not mechanised. The origin of the key is part of the construct key,
 // so the same text with a key from another collection is a different construct.
 var getValueExceptions = map[string]string{
-	"core.(*JApiCore).checkUserType | core.userTypes.GetValue(name) [parameter name]":     "called for the keys of userTypes.Each, or for the type that Check() of such a type names as incorrect, which the dependency found in the set of added types = userTypes",
-	"core.(*JApiCore).checkUserType | core.rawUserTypes.GetValue(name) [parameter name]":  "userTypes is a subset of rawUserTypes: userTypes.Set is only called with a key of rawUserTypes.Each, or re-sets an existing key",
+	"core.(*JApiCore).checkUserType | core.userTypes.GetValue(name) [parameter name]":          "called for the keys of userTypes.Each, or for the type that Check() of such a type names as incorrect, which the dependency found in the set of added types = userTypes",
+	"core.(*JApiCore).checkUserType | core.rawUserTypes.GetValue(name) [parameter name]":       "userTypes is a subset of rawUserTypes: userTypes.Set is only called with a key of rawUserTypes.Each, or re-sets an existing key",
 	"core.(*JApiCore).compileUserTypeWithAllDependencies | dd.GetValue(name) [parameter name]": "name is a key of userTypes (checked non-nil a few lines above) or the name of the existing user type whose UsedUserTypes() failed; userTypes is a subset of rawUserTypes",
 	"core.(*JApiCore).compileUserTypeWithAllDependencies | dd.GetValue(n) [ranges over tt]":    "the loop skips every n whose userTypes.GetValue(n) is nil, and userTypes is a subset of rawUserTypes",
 }
@@ -1487,10 +1487,10 @@ func objOf(pk *packages.Package, id *ast.Ident) types.Object {
 // ---------- constant index ----------
 
 var constIndexExceptions = map[string]string{
-	"core.pathParameters | segment[0]":                "the segments come from splitPath, which drops empty strings",
+	"core.pathParameters | segment[0]":                  "the segments come from splitPath, which drops empty strings",
 	"core.pathParameters | segment[1:len(segment) - 1]": "the segments come from splitPath, which drops empty strings; the slice is taken only when the segment starts with '{' and ends with '}'",
-	"directive.IsHTTPResponseCode | s[0]":             "strconv.Atoi(s) succeeded, so s is not empty",
-	"catalog.typeNameToSchemaName | typeName[1:]":     "user type names start with '@' followed by at least one character (scanner/schema-core naming rule)",
+	"directive.IsHTTPResponseCode | s[0]":               "strconv.Atoi(s) succeeded, so s is not empty",
+	"catalog.typeNameToSchemaName | typeName[1:]":       "user type names start with '@' followed by at least one character (scanner/schema-core naming rule)",
 }
 
 func (c *Ctx) ruleConstIndex(rule string, reach map[*ssa.Function]bool) {
@@ -1743,30 +1743,43 @@ func lenEvidence(pk *packages.Package, cf *funcCFG, body *ast.BlockStmt, site as
 // ---------- recursion ----------
 
 type recWitness struct {
-	kind string // structural | visited | dependency | macro | scanner
+	kind string // structural | visited | macro | dependency
 	why  string
+	// dependency witnesses: what is assumed about jsight-schema-core, and the part that is visible in this code
+	assume           string
+	guarded, guardBy string // "pkg:Func": every call of guarded is dominated by a successful call of guardBy
+	noSelfCall       bool   // no member calls itself directly
 }
 
-// recursionWitnesses: one entry per recursive component, keyed by its sorted member names.
+// recursionWitnesses: witnesses that rest on another rule (macro) or on a named assumption about the dependency.
+// A component is matched when it shares a member with the key. Every other component must verify structurally or by a
+// visited set. (Until the fix 5d5142d CastToObject, checkPathSchemaRoot and checkPathSchemaProperty* were listed here
+// with the assumption "Check() rejects every reference cycle": it does not, a cycle through `nullable` is accepted,
+// and the build died with a stack overflow on  TYPE @a  @a // {nullable: true}. They now carry visited sets.)
 var recursionWitnesses = map[string]recWitness{
-	"catalog.(*ExchangeContent).collectJSightContentArrayItems+catalog.(*ExchangeContent).collectJSightContentObjectProperties+catalog.astNodeToJsightContent": {"structural", "descends into node.Children of the schema AST"},
-	"catalog.(*ExchangeContent).processAllOf":                          {"structural", "descends into c.Children of the exchange content tree"},
-	"catalog.astNodeToSchemaRule":                                      {"structural", "descends into the Properties/Items of a rule AST node"},
-	"core.(*JApiCore).addDirectiveBranch":                              {"structural", "descends into d.Children"},
-	"core.(*JApiCore).collectPaths":                                    {"structural", "descends into dd[i].Children"},
-	"directive.(Directive).HTTPMethod":                                 {"structural", "walks d.Parent"},
-	"directive.(Directive).JsonRpcMethodName":                          {"structural", "walks d.Parent"},
-	"directive.(Directive).Path":                                       {"structural", "walks d.Parent"},
-	"core.(userTypeError).Error":                                       {"structural", "unwraps e.err"},
-	"core.(*JApiCore).compileUserTypeWithAllDependencies":              {"visited", "processedUserTypes: lookup with early return, insertion before any recursive call"},
-	"core.(*usedUserTypeFetcher).fetch":                                {"visited", "alreadyProcessed: lookup with continue, insertion before the recursive call"},
-	"core.(*JApiCore).checkMacro+core.(*JApiCore).findPaste":           {"macro", "three-colour visited state verified by C10-CYCLE-REJECTED"},
-	"core.(*JApiCore).processDirective+core.(*JApiCore).processPasteDirective+core.(*JApiCore).processPasteDirectiveList": {"macro", "follows the macro table; terminates because checkMacroForRecursion rejected every cycle before (C10-CYCLE-REJECTED R4) and otherwise descends into Children"},
-	"catalog.(*ExchangeJSightSchema).CastToObject":                                                             {"dependency", "follows a user-type reference by name"},
-	"catalog.(*JSchemaObject).appendPropertiesFromShortcut+catalog.(*JSchemaObject).objectFirstLevelProperties": {"dependency", "follows a user-type reference by name"},
-	"core.(*JApiCore).checkPathSchema+core.(*JApiCore).checkPathSchemaPropertyInAllOf+core.(*JApiCore).checkPathSchemaRoot": {"dependency", "follows user-type references (shortcut / allOf) by name"},
-	"core.(*JApiCore).checkPathSchemaProperty+core.(*JApiCore).checkPathSchemaPropertyUserType":               {"dependency", "follows user-type references (shortcut / or) by name"},
-	"core.(*JApiCore).checkUserType":                                                                           {"dependency", "moves to the user type that the dependency's Check() names as incorrect; Check() reports a type other than itself only along a reference chain, which is acyclic or rejected as infinite recursion"},
+	"catalog.(*ExchangeContent).collectJSightContentArrayItems+catalog.(*ExchangeContent).collectJSightContentObjectProperties+catalog.astNodeToJsightContent": {kind: "structural", why: "; descends into node.Children of the schema AST"},
+	"catalog.(*ExchangeContent).processAllOf":                {kind: "structural", why: "; descends into c.Children of the exchange content tree"},
+	"catalog.astNodeToSchemaRule":                            {kind: "structural", why: "; descends into the Properties/Items of a rule AST node"},
+	"core.(*JApiCore).addDirectiveBranch":                    {kind: "structural", why: "; descends into d.Children"},
+	"core.(*JApiCore).collectPaths":                          {kind: "structural", why: "; descends into dd[i].Children"},
+	"directive.(Directive).HTTPMethod":                       {kind: "structural", why: "; walks d.Parent"},
+	"directive.(Directive).JsonRpcMethodName":                {kind: "structural", why: "; walks d.Parent"},
+	"directive.(Directive).Path":                             {kind: "structural", why: "; walks d.Parent"},
+	"core.(userTypeError).Error":                             {kind: "structural", why: "; unwraps e.err"},
+	"core.(*JApiCore).compileUserTypeWithAllDependencies":    {kind: "visited", why: "processedUserTypes"},
+	"core.(*usedUserTypeFetcher).fetch":                      {kind: "visited", why: "alreadyProcessed"},
+	"core.(*JApiCore).checkMacro+core.(*JApiCore).findPaste": {kind: "macro", why: "three-colour visited state verified by C10-CYCLE-REJECTED"},
+	"core.(*JApiCore).processDirective+core.(*JApiCore).processPasteDirective+core.(*JApiCore).processPasteDirectiveList": {kind: "macro", why: "follows the macro table; terminates because checkMacroForRecursion rejected every cycle before (C10-CYCLE-REJECTED R4) and otherwise descends into Children"},
+	"catalog.(*JSchemaObject).appendPropertiesFromShortcut+catalog.(*JSchemaObject).objectFirstLevelProperties": {kind: "dependency",
+		why:     "follows the root type reference by name; only run on a Path schema that checkPathSchema accepted, whose root chain of references was followed with a visited set and ends in an object",
+		assume:  "a root that checkPathSchemaRoot accepted has no `or`: the only names followed are those of the root reference chain",
+		guarded: "catalog:JSchemaObject.ObjectFirstLevelProperties", guardBy: "core:JApiCore.checkPathSchema"},
+	"core.(*JApiCore).checkPathSchema+core.(*JApiCore).checkPathSchemaPropertyInAllOf+core.(*JApiCore).checkPathSchemaRoot": {kind: "dependency",
+		why: "follows allOf references by name", noSelfCall: true,
+		assume: "jsight-schema-core's Check() rejects every cycle of allOf references (\"The unacceptable recursion in the `allOf` rule\"; observed for cycles of length 1, 2 and 3)"},
+	"core.(*JApiCore).checkUserType": {kind: "dependency",
+		why:    "moves to the user type that the dependency's Check() names as incorrect",
+		assume: "Check() of the type it named as incorrect reports that type itself (or no other type): the move happens at most once"},
 }
 
 func (c *Ctx) ruleRecursion(reach map[*ssa.Function]bool) {
@@ -1796,39 +1809,303 @@ func (c *Ctx) ruleRecursion(reach map[*ssa.Function]bool) {
 			}
 			continue
 		}
-		w, ok := recursionWitnesses[key]
-		if !ok {
-			r.Bad("C01-RECURSION", key, "a recursive component without a termination witness: unbounded recursion kills the process with a stack overflow that recover() cannot catch", where)
+		// a component that shares a member with a confirmed entry keeps that entry's kind (a split or renamed helper
+		// keeps its witness); any other component must verify by the strict forms of the structural or visited witness
+		w, known := recursionWitnessFor(names)
+		whyS := c.verifyStructural(comp, known && w.kind == "structural")
+		if whyS == "" && (!known || w.kind == "structural") {
+			r.Ok("C01-RECURSION", key, "structural: every cycle of calls passes a value strictly below a parameter (field, element, Parent)"+w.why, where)
+			continue
+		}
+		whyV := c.verifyVisitedComp(comp)
+		if whyV != "" && len(comp) == 1 && c.verifyVisited(comp) == "" {
+			whyV = ""
+		}
+		if whyV == "" && (!known || w.kind == "visited") {
+			r.Ok("C01-RECURSION", key, "visited set: every cycle of calls passes a member whose calls into the component are dominated by the miss edge of a lookup and by the insertion of the same key into a map that is handed down", where)
+			continue
+		}
+		if !known {
+			r.Bad("C01-RECURSION", key, "a recursive component without a termination witness (not structural: "+whyS+"; no visited set: "+whyV+"): unbounded recursion kills the process with a stack overflow that recover() cannot catch", where)
 			continue
 		}
 		switch w.kind {
-		case "structural":
-			if why := c.verifyStructural(comp); why == "" {
-				r.Ok("C01-RECURSION", key, "structural: "+w.why+" (every recursive call passes a value strictly below a parameter)", where)
-			} else {
-				r.Bad("C01-RECURSION", key, "the structural witness no longer verifies: "+why, where)
-			}
-		case "visited":
-			if why := c.verifyVisited(comp); why == "" {
-				r.Ok("C01-RECURSION", key, "visited set: "+w.why, where)
-			} else {
-				r.Bad("C01-RECURSION", key, "the visited-set witness no longer verifies: "+why, where)
-			}
 		case "macro":
 			r.Ok("C01-RECURSION", key, "macro table: "+w.why, where)
 		case "dependency":
-			if depOK == "" {
-				r.Ok("C01-RECURSION", key, "dependency pre-pass: "+w.why+"; compileUserTypes (Check() of every user type) precedes in the pipeline", where)
-			} else {
+			if depOK != "" {
 				r.Bad("C01-RECURSION", key, "the dependency pre-pass witness no longer verifies: "+depOK, where)
+			} else if g := c.verifyNoSelfCall(w, comp); g != "" {
+				r.Bad("C01-RECURSION", key, "the dependency witness no longer verifies: "+g, where)
+			} else if g := c.verifyDependencyGuard(w); g != "" {
+				r.Bad("C01-RECURSION", key, "the dependency witness no longer verifies: "+g, where)
+			} else {
+				r.Ok("C01-RECURSION", key, "dependency pre-pass: "+w.why+"; compileUserTypes (Check() of every user type) precedes in the pipeline", where)
+				r.Assumptions = append(r.Assumptions, "C01-RECURSION "+key+": "+w.assume)
 			}
+		default:
+			r.Bad("C01-RECURSION", key, "the "+w.kind+" witness recorded for this component no longer verifies (not structural: "+whyS+"; no visited set: "+whyV+")", where)
 		}
 	}
 }
 
+// recursionWitnessFor finds the table entry that shares a member with the component.
+func recursionWitnessFor(names []string) (recWitness, bool) {
+	var keys []string
+	for k := range recursionWitnesses {
+		keys = append(keys, k)
+	}
+	sort.Strings(keys)
+	for _, k := range keys {
+		for _, m := range strings.Split(k, "+") {
+			for _, n := range names {
+				if m == n {
+					return recursionWitnesses[k], true
+				}
+			}
+		}
+	}
+	return recWitness{}, false
+}
+
+// verifyNoSelfCall: a witness that speaks of one kind of reference only (allOf) does not cover a member that calls
+// itself directly (that was the shape of the reference-chain recursion repaired in 5d5142d).
+func (c *Ctx) verifyNoSelfCall(w recWitness, comp []*ssa.Function) string {
+	if !w.noSelfCall {
+		return ""
+	}
+	for _, sf := range comp {
+		m := declOf(sf)
+		f := c.fnOf(m)
+		if f == nil {
+			continue
+		}
+		if len(callsIn(f.Pkg, f.Decl.Body, m.Origin())) > 0 {
+			return m.Name() + " calls itself directly: that recursion is not the one the witness describes"
+		}
+	}
+	return ""
+}
+
+// verifyDependencyGuard checks the part of a dependency witness that is visible in the code: when the witness names
+// a guard function and a guarded function, every library call of the guarded function must be dominated by the nil
+// edge of the error of a call of the guard.
+func (c *Ctx) verifyDependencyGuard(w recWitness) string {
+	if w.guarded == "" {
+		return ""
+	}
+	gp := strings.SplitN(w.guarded, ":", 2)
+	bp := strings.SplitN(w.guardBy, ":", 2)
+	guarded := c.P.LookupFunc(gp[0], gp[1])
+	by := c.P.LookupFunc(bp[0], bp[1])
+	if guarded == nil || by == nil {
+		return "guard " + w.guardBy + " or guarded function " + w.guarded + " not found"
+	}
+	n := 0
+	for _, f := range c.libFns() {
+		if f.Obj == guarded {
+			continue
+		}
+		calls := callsIn(f.Pkg, f.Decl.Body, guarded)
+		if len(calls) == 0 {
+			continue
+		}
+		cf := buildCFG(f.Decl.Body)
+		for _, call := range calls {
+			n++
+			ok := false
+			for _, g := range callsIn(f.Pkg, f.Decl.Body, by) {
+				// the guard's error is tested: `if err := guard(..); err != nil { return .. }`
+				var errVar types.Object
+				inspectWithStack(f.Decl.Body, func(nd ast.Node, st []ast.Node) bool {
+					if as, isAs := nd.(*ast.AssignStmt); isAs && len(as.Rhs) == 1 && ast.Unparen(as.Rhs[0]) == ast.Expr(g) && len(as.Lhs) >= 1 {
+						if id, isId := as.Lhs[len(as.Lhs)-1].(*ast.Ident); isId {
+							if o := f.Pkg.TypesInfo.Defs[id]; o != nil {
+								errVar = o
+							} else {
+								errVar = f.Pkg.TypesInfo.Uses[id]
+							}
+						}
+					}
+					return true
+				})
+				if errVar == nil {
+					continue
+				}
+				est := func(cond ast.Expr, trueEdge bool) bool {
+					be, isBe := ast.Unparen(cond).(*ast.BinaryExpr)
+					if !isBe || !isNil(f.Pkg, be.Y) {
+						return false
+					}
+					id, isId := ast.Unparen(be.X).(*ast.Ident)
+					if !isId || f.Pkg.TypesInfo.Uses[id] != errVar {
+						return false
+					}
+					return (be.Op == token.EQL && trueEdge) || (be.Op == token.NEQ && !trueEdge)
+				}
+				if cf.dominatedBy(call, g) && cf.establishedAt(call, est, nil) {
+					ok = true
+				}
+			}
+			if !ok {
+				return fmt.Sprintf("%s is called in %s without a preceding successful %s", gp[1], f.Name(), bp[1])
+			}
+		}
+	}
+	if n == 0 {
+		return "no call of " + gp[1] + " found"
+	}
+	return ""
+}
+
+// verifyVisitedComp: the component has members ("guarded") in which every call into the component is reached only
+// over the miss edge of a map lookup M[k] and after the insertion M[k] = ..., the map M being a parameter or a field
+// (not created per call), and every cycle of the component passes a guarded member.
+func (c *Ctx) verifyVisitedComp(comp []*ssa.Function) string {
+	members := map[*types.Func]bool{}
+	for _, f := range comp {
+		if o := declOf(f); o != nil {
+			members[o.Origin()] = true
+		}
+	}
+	guarded := map[*types.Func]bool{}
+	edges := map[*types.Func][]*types.Func{}
+	for m := range members {
+		f := c.fnOf(m)
+		if f == nil {
+			return "no syntax for " + m.Name()
+		}
+		pk := f.Pkg
+		var calls []*ast.CallExpr
+		ast.Inspect(f.Decl.Body, func(n ast.Node) bool {
+			if call, ok := n.(*ast.CallExpr); ok {
+				if cal := callee(pk, call); cal != nil && members[cal.Origin()] {
+					calls = append(calls, call)
+					edges[m] = append(edges[m], cal.Origin())
+				}
+			}
+			return true
+		})
+		if len(calls) == 0 {
+			continue
+		}
+		// candidate (map, key) pairs: insertions M[k] = v where M is rooted at a parameter or the receiver
+		params := map[types.Object]bool{}
+		if f.Decl.Recv != nil {
+			for _, fl := range f.Decl.Recv.List {
+				for _, n := range fl.Names {
+					params[pk.TypesInfo.Defs[n]] = true
+				}
+			}
+		}
+		for _, fl := range f.Decl.Type.Params.List {
+			for _, n := range fl.Names {
+				params[pk.TypesInfo.Defs[n]] = true
+			}
+		}
+		rootIsParam := func(e ast.Expr) bool {
+			for {
+				switch x := ast.Unparen(e).(type) {
+				case *ast.Ident:
+					return params[pk.TypesInfo.Uses[x]]
+				case *ast.SelectorExpr:
+					e = x.X
+				case *ast.StarExpr:
+					e = x.X
+				default:
+					return false
+				}
+			}
+		}
+		type cand struct {
+			ins    *ast.AssignStmt
+			m, key string
+		}
+		var cands []cand
+		ast.Inspect(f.Decl.Body, func(n ast.Node) bool {
+			if as, ok := n.(*ast.AssignStmt); ok && len(as.Lhs) == 1 {
+				if b, k, isIdx := indexOn(pk, as.Lhs[0]); isIdx && rootIsParam(b) {
+					cands = append(cands, cand{as, accessPath(pk, b), keyString(pk, k)})
+				}
+			}
+			return true
+		})
+		cf := buildCFG(f.Decl.Body)
+		for _, cd := range cands {
+			if cd.m == "" || cd.key == "" {
+				continue
+			}
+			keyIds := map[types.Object]bool{}
+			if as := cd.ins; len(as.Lhs) == 1 {
+				if _, k, isIdx := indexOn(pk, as.Lhs[0]); isIdx {
+					ast.Inspect(k, func(x ast.Node) bool {
+						if id, ok := x.(*ast.Ident); ok {
+							if o := pk.TypesInfo.Uses[id]; o != nil {
+								keyIds[o] = true
+							}
+						}
+						return true
+					})
+				}
+			}
+			miss, kills := missFact(pk, f.Decl.Body, cd.m, cd.key, keyIds)
+			all := true
+			for _, call := range calls {
+				if !(cf.dominatedBy(call, cd.ins) && cf.establishedAt(call, miss, kills)) {
+					all = false
+				}
+				// the map handed down must be the same map (a parameter or field), not a fresh one
+				for _, a := range call.Args {
+					if t := pk.TypesInfo.TypeOf(a); t != nil {
+						if _, isMap := t.Underlying().(*types.Map); isMap && !rootIsParam(a) {
+							all = false
+						}
+					}
+				}
+			}
+			if all {
+				guarded[m] = true
+			}
+		}
+	}
+	// every cycle passes a guarded member: the graph without the guarded members is acyclic
+	color := map[*types.Func]int{}
+	var cyc func(x *types.Func) bool
+	cyc = func(x *types.Func) bool {
+		color[x] = 1
+		for _, y := range edges[x] {
+			if guarded[y] {
+				continue
+			}
+			if color[y] == 1 || (color[y] == 0 && cyc(y)) {
+				return true
+			}
+		}
+		color[x] = 2
+		return false
+	}
+	for m := range members {
+		if !guarded[m] && color[m] == 0 && cyc(m) {
+			return "there is a cycle of calls that passes no member guarded by a visited set"
+		}
+	}
+	if len(guarded) == 0 {
+		return "no member is guarded by a visited set"
+	}
+	return ""
+}
+
+// keyString names a map key expression by object identity where possible.
+func keyString(pk *packages.Package, e ast.Expr) string {
+	if p := accessPath(pk, e); p != "" {
+		return p
+	}
+	return exprString(e)
+}
+
 // verifyStructural: every call between members passes, as receiver or argument, an expression that is strictly below
 // a parameter/receiver of the caller (field selection, index, range element, or local assigned from such).
-func (c *Ctx) verifyStructural(comp []*ssa.Function) string {
+func (c *Ctx) verifyStructural(comp []*ssa.Function, lenient bool) string {
 	members := map[*types.Func]bool{}
 	for _, f := range comp {
 		if o := declOf(f); o != nil {
@@ -1880,8 +2157,9 @@ func (c *Ctx) verifyStructural(comp []*ssa.Function) string {
 					return isBelow(x.X, strict)
 				}
 			case *ast.CallExpr:
-				// accessor on a below/param value that returns a component (e.g. rules.Get(...), ut.Schema.(*T))
-				if sel, ok := ast.Unparen(x.Fun).(*ast.SelectorExpr); ok {
+				// accessor on a below/param value that returns a component (e.g. rules.Get(...), ut.Schema.(*T)):
+				// only for components confirmed by hand (a lookup in a table by name is not a descent)
+				if sel, ok := ast.Unparen(x.Fun).(*ast.SelectorExpr); ok && lenient {
 					return isBelow(sel.X, false)
 				}
 			case *ast.TypeAssertExpr:
@@ -1956,6 +2234,12 @@ func (c *Ctx) verifyStructural(comp []*ssa.Function) string {
 				}
 			}
 			for _, a := range call.Args {
+				// a name or a number taken from a component is not a component
+				if t := pk.TypesInfo.TypeOf(a); t != nil {
+					if _, basic := t.Underlying().(*types.Basic); basic {
+						continue
+					}
+				}
 				if isBelow(a, true) {
 					strict = true
 				}
@@ -2153,6 +2437,10 @@ func (c *Ctx) ruleLoops(reach map[*ssa.Function]bool) {
 				r.Ok("C01-LOOPS", key, why, where)
 				return true
 			}
+			if why := measuredLoop(pk, buildCFG(f.Decl.Body), f.Decl.Body, fs); why != "" {
+				r.Ok("C01-LOOPS", key, why, where)
+				return true
+			}
 			if why, ok := loopWitnesses[f.Name()]; ok {
 				// structural sanity for the witness: an infinite `for {}` must contain a return
 				hasExit := false
@@ -2331,6 +2619,262 @@ func shrinkingLoop(pk *packages.Package, fs *ast.ForStmt) string {
 		}
 	}
 	return ""
+}
+
+// measuredLoop finds a measure that strictly decreases on every path round the loop, whatever the statement form:
+// the length of a slice (every iteration passes `x = x[k:]` or `x = x[:len(x)-k]`, k >= 1, and nothing else assigns x),
+// the depth of a node in the directive tree (every iteration passes `v = v.Parent`, possibly through a local alias of
+// v, and nothing else assigns v), or the number of keys not yet in a visited map that lives outside the loop (every
+// iteration passes an insertion M[k] = .. that is reached only over the miss edge of a lookup of M[k]).
+func measuredLoop(pk *packages.Package, cf *funcCFG, fnBody *ast.BlockStmt, fs *ast.ForStmt) string {
+	inLoop := func(n ast.Node) bool { return fs.Pos() <= n.Pos() && n.End() <= fs.End() }
+	assignsTo := func(path string, except func(as *ast.AssignStmt) bool) bool {
+		bad := false
+		ast.Inspect(fs, func(n ast.Node) bool {
+			switch x := n.(type) {
+			case *ast.AssignStmt:
+				for _, l := range x.Lhs {
+					if accessPath(pk, l) == path && !(except != nil && except(x)) {
+						bad = true
+					}
+				}
+			case *ast.IncDecStmt:
+				if accessPath(pk, x.X) == path {
+					bad = true
+				}
+			case *ast.UnaryExpr:
+				if x.Op == token.AND && accessPath(pk, x.X) == path {
+					bad = true // address taken: may be written elsewhere
+				}
+			}
+			return true
+		})
+		return bad
+	}
+	isShrinkOf := func(as *ast.AssignStmt) string {
+		if len(as.Lhs) != 1 || len(as.Rhs) != 1 || as.Tok != token.ASSIGN {
+			return ""
+		}
+		se, ok := ast.Unparen(as.Rhs[0]).(*ast.SliceExpr)
+		if !ok || accessPath(pk, se.X) == "" || accessPath(pk, se.X) != accessPath(pk, as.Lhs[0]) {
+			return ""
+		}
+		if se.Low != nil && se.High == nil {
+			if k, ok := constInt(pk, se.Low); ok && k >= 1 {
+				return accessPath(pk, se.X)
+			}
+		}
+		if se.Low == nil && se.High != nil {
+			if be, ok := ast.Unparen(se.High).(*ast.BinaryExpr); ok && be.Op == token.SUB {
+				if call, ok := ast.Unparen(be.X).(*ast.CallExpr); ok && len(call.Args) == 1 && exprString(call.Fun) == "len" && accessPath(pk, call.Args[0]) == accessPath(pk, se.X) {
+					if k, ok := constInt(pk, be.Y); ok && k >= 1 {
+						return accessPath(pk, se.X)
+					}
+				}
+			}
+		}
+		return ""
+	}
+	// local aliases defined in the loop: w := v
+	alias := map[types.Object]string{}
+	ast.Inspect(fs, func(n ast.Node) bool {
+		if as, ok := n.(*ast.AssignStmt); ok && as.Tok == token.DEFINE && len(as.Lhs) == 1 && len(as.Rhs) == 1 {
+			if id, ok := as.Lhs[0].(*ast.Ident); ok {
+				if o := pk.TypesInfo.Defs[id]; o != nil {
+					if p := accessPath(pk, as.Rhs[0]); p != "" {
+						alias[o] = p
+					}
+				}
+			}
+		}
+		return true
+	})
+	isParentStepOf := func(as *ast.AssignStmt) string {
+		if len(as.Lhs) != 1 || len(as.Rhs) != 1 || as.Tok != token.ASSIGN {
+			return ""
+		}
+		sel, ok := ast.Unparen(as.Rhs[0]).(*ast.SelectorExpr)
+		if !ok {
+			return ""
+		}
+		fld := fieldSel(pk, sel)
+		if fld == nil || fld.Name() != "Parent" {
+			return ""
+		}
+		lp := accessPath(pk, as.Lhs[0])
+		if lp == "" {
+			return ""
+		}
+		if accessPath(pk, sel.X) == lp {
+			return lp
+		}
+		if id, ok := ast.Unparen(sel.X).(*ast.Ident); ok && alias[pk.TypesInfo.Uses[id]] == lp {
+			// the alias must be taken before the step on every path: it is defined in the loop and v is assigned nowhere else
+			return lp
+		}
+		return ""
+	}
+	var shrinks, steps []string
+	type insertion struct {
+		as     *ast.AssignStmt
+		m, key string
+		keyIds map[types.Object]bool
+	}
+	var inserts []insertion
+	ast.Inspect(fs, func(n ast.Node) bool {
+		if as, ok := n.(*ast.AssignStmt); ok && inLoop(as) {
+			if p := isShrinkOf(as); p != "" {
+				shrinks = append(shrinks, p)
+			}
+			if p := isParentStepOf(as); p != "" {
+				steps = append(steps, p)
+			}
+			if len(as.Lhs) == 1 {
+				if b, k, isIdx := indexOn(pk, as.Lhs[0]); isIdx {
+					ids := map[types.Object]bool{}
+					ast.Inspect(k, func(m ast.Node) bool {
+						if id, ok := m.(*ast.Ident); ok {
+							if o := pk.TypesInfo.Uses[id]; o != nil {
+								ids[o] = true
+							}
+						}
+						return true
+					})
+					inserts = append(inserts, insertion{as, accessPath(pk, b), keyString(pk, k), ids})
+				}
+			}
+		}
+		return true
+	})
+	for _, x := range shrinks {
+		if assignsTo(x, func(as *ast.AssignStmt) bool { return isShrinkOf(as) == x }) {
+			continue
+		}
+		if cf.everyIterationPasses(fs, func(n ast.Node) bool {
+			as, ok := n.(*ast.AssignStmt)
+			return ok && isShrinkOf(as) == x
+		}) {
+			return "measure: every path round the loop cuts at least one element off " + prettyPath(x) + ", which nothing else in the loop assigns"
+		}
+	}
+	for _, v := range steps {
+		if assignsTo(v, func(as *ast.AssignStmt) bool { return isParentStepOf(as) == v }) {
+			continue
+		}
+		if cf.everyIterationPasses(fs, func(n ast.Node) bool {
+			as, ok := n.(*ast.AssignStmt)
+			return ok && isParentStepOf(as) == v
+		}) {
+			return "measure: every path round the loop moves " + prettyPath(v) + " to its Parent (finite, acyclic chain), and nothing else in the loop assigns it"
+		}
+	}
+	for _, in := range inserts {
+		if in.m == "" || in.key == "" {
+			continue
+		}
+		// the map is declared outside the loop and not assigned in it
+		if assignsTo(in.m, nil) {
+			continue
+		}
+		declaredInside := false
+		ast.Inspect(fs, func(n ast.Node) bool {
+			if id, ok := n.(*ast.Ident); ok {
+				if o := pk.TypesInfo.Defs[id]; o != nil && strings.HasPrefix(in.m, fmt.Sprintf("%s#%d", id.Name, o.Pos())) {
+					declaredInside = true
+				}
+			}
+			return true
+		})
+		if declaredInside {
+			continue
+		}
+		est, kills := missFact(pk, fnBody, in.m, in.key, in.keyIds)
+		if !cf.establishedAt(in.as, est, kills) {
+			continue
+		}
+		if cf.everyIterationPasses(fs, func(n ast.Node) bool { return n == ast.Node(in.as) }) {
+			return "measure: every path round the loop inserts a key into the visited map " + prettyPath(in.m) + " that the lookup before it missed (the keys are names of a finite table)"
+		}
+	}
+	return ""
+}
+
+// missFact: the dataflow fact "the lookup M[k] missed": established on the miss edge of a test of the lookup's
+// comma-ok variable (or of the map element itself when it is boolean), killed by an assignment to a variable of the key.
+func missFact(pk *packages.Package, body ast.Node, m, key string, keyIds map[types.Object]bool) (func(ast.Expr, bool) bool, func(ast.Node) bool) {
+	okVars := map[types.Object]bool{}
+	ast.Inspect(body, func(n ast.Node) bool {
+		if as, isAs := n.(*ast.AssignStmt); isAs && len(as.Lhs) == 2 && len(as.Rhs) == 1 {
+			if b, k, isIdx := indexOn(pk, as.Rhs[0]); isIdx && accessPath(pk, b) == m && keyString(pk, k) == key {
+				if id, isId := as.Lhs[1].(*ast.Ident); isId {
+					if o := pk.TypesInfo.Defs[id]; o != nil {
+						okVars[o] = true
+					} else if o := pk.TypesInfo.Uses[id]; o != nil {
+						okVars[o] = true
+					}
+				}
+			}
+		}
+		return true
+	})
+	// a comma-ok variable that is also assigned by something else is not a witness of the lookup
+	ast.Inspect(body, func(n ast.Node) bool {
+		if as, isAs := n.(*ast.AssignStmt); isAs {
+			isLookup := false
+			if len(as.Lhs) == 2 && len(as.Rhs) == 1 {
+				if b, k, isIdx := indexOn(pk, as.Rhs[0]); isIdx && accessPath(pk, b) == m && keyString(pk, k) == key {
+					isLookup = true
+				}
+			}
+			for i, l := range as.Lhs {
+				if id, isId := l.(*ast.Ident); isId && !(isLookup && i == 1) {
+					o := pk.TypesInfo.Defs[id]
+					if o == nil {
+						o = pk.TypesInfo.Uses[id]
+					}
+					delete(okVars, o)
+				}
+			}
+		}
+		return true
+	})
+	est := func(cond ast.Expr, trueEdge bool) bool {
+		if id, isId := ast.Unparen(cond).(*ast.Ident); isId && okVars[pk.TypesInfo.Uses[id]] {
+			return !trueEdge
+		}
+		if b, k, isIdx := indexOn(pk, cond); isIdx && accessPath(pk, b) == m && keyString(pk, k) == key {
+			return !trueEdge
+		}
+		return false
+	}
+	kills := func(n ast.Node) bool {
+		killed := false
+		ast.Inspect(n, func(x ast.Node) bool {
+			switch a := x.(type) {
+			case *ast.FuncLit:
+				return false
+			case *ast.AssignStmt:
+				for _, l := range a.Lhs {
+					if id, ok := l.(*ast.Ident); ok {
+						o := pk.TypesInfo.Defs[id]
+						if o == nil {
+							o = pk.TypesInfo.Uses[id]
+						}
+						if keyIds[o] {
+							killed = true
+						}
+					}
+				}
+			case *ast.IncDecStmt:
+				if id, ok := a.X.(*ast.Ident); ok && keyIds[pk.TypesInfo.Uses[id]] {
+					killed = true
+				}
+			}
+			return true
+		})
+		return killed
+	}
+	return est, kills
 }
 
 // parentWalkLoop: `for d := x; d != nil; d = d.Parent` or `for { ...; v = v.Parent }` with a nil test that exits.
